@@ -153,8 +153,16 @@ def base_signature(case, violation):
     kind = None
     if "Interleaved input file incomplete" in msg:
         kind = "interleaved-incomplete"
+    mixed = False
+    try:
+        for d in destinations(case):
+            if len(d["paths"]) == 2 and gen.ext_class(d["paths"][0]) != gen.ext_class(d["paths"][1]):
+                mixed = True
+    except Exception:
+        pass
     return {
         "clause": violation["clause"],
+        "mixed_format_pair": mixed,
         "demux": m.get("demux"),
         "paired": case["paired"],
         "input_fmt": case["fmt"],
